@@ -1,0 +1,5 @@
+//go:build !verif
+
+package mpb
+
+func verifYield(string) {}
